@@ -72,6 +72,10 @@ def content_of(pd, obj):
     return [0]
 
 
+class HarnessError(Exception):
+    pass
+
+
 class World:
     def __init__(self, init):
         mx, pd, mxsys = libs()
@@ -90,7 +94,7 @@ class World:
             m = mx.new_model(name)
             for s in SPACES:
                 sp = m.new_space(s)
-                sp.new_cells("c", formula=lambda: 1)
+                sp.new_cells("c", formula="lambda: 1")
             if name in init["base"]:
                 m.B.add_bases(m.A)
             self.models[name] = m
@@ -238,13 +242,14 @@ class World:
         try:
             if k == "new_spec":
                 par = self.parent(op["m"], op["sp"])
-                if op["kind"] == "csv":
+                kind = op.get("kind") or ("module" if op["loc"].endswith(".py") else "csv")
+                if kind == "csv":
                     par.new_pandas(op["n"], op["loc"], self.obj[op["v"]], file_type="csv")
-                elif op["kind"] == "module":
+                elif kind == "module":
                     par.new_module(op["n"], op["loc"], self.msrc(op["v"]))
                     self.adopt_modules(op["v"])
                 else:
-                    raise RuntimeError("unknown kind")
+                    raise HarnessError("unknown kind")
             elif k == "assign":
                 setattr(self.parent(op["m"], op["sp"]), op["n"], self.value(op["v"]))
             elif k == "del_ref":
@@ -272,9 +277,9 @@ class World:
                 ev.update(self.write_read(op["m"]))
                 return ev
             else:
-                raise RuntimeError("unknown operation %r" % (k,))
+                raise HarnessError("unknown operation %r" % (k,))
             ev["res"] = "ok"
-        except RuntimeError:
+        except HarnessError:
             raise
         except Exception as e:
             ev["res"] = "rejected"
